@@ -274,7 +274,7 @@ type DrawingDocPr struct {
 // DrawingGraphic 图形
 type DrawingGraphic struct {
 	XMLName     xml.Name     `xml:"a:graphic"`
-	Xmlns       string       `xml:"xmlns:a,attr"`
+	Xmlns       string       `xml:"xmlns:a,attr,omitempty"`
 	GraphicData *GraphicData `xml:"a:graphicData"`
 }
 
@@ -288,7 +288,7 @@ type GraphicData struct {
 // PicElement 图片
 type PicElement struct {
 	XMLName  xml.Name  `xml:"pic:pic"`
-	Xmlns    string    `xml:"xmlns:pic,attr"`
+	Xmlns    string    `xml:"xmlns:pic,attr,omitempty"`
 	NvPicPr  *NvPicPr  `xml:"pic:nvPicPr"`
 	BlipFill *BlipFill `xml:"pic:blipFill"`
 	SpPr     *SpPr     `xml:"pic:spPr"`
